@@ -143,6 +143,25 @@ def extract():
                 problems.append(f"bind_native arm {key!r} instantiates unknown class {arm['class']}")
                 continue
             natives[key] = {"class": arm["class"], "secure": c["secure"], "effects": c["effects"], "alias": arm["alias"]}
+    # the flag as read from the source must be the flag an instance really carries (assignment order, inheritance, properties)
+    try:
+        core.use_repo()
+        import importlib
+        F = importlib.import_module("ckl.functions")
+        for cname, c in classes.items():
+            cls = getattr(F, cname, None)
+            if cls is None:
+                continue
+            try:
+                inst = cls()
+            except TypeError:
+                continue            # needs constructor arguments (lambdas, bound natives): not a bind_native arm
+            if bool(getattr(inst, "secure", True)) != c["secure"]:
+                problems.append(f"{cname}: the source assigns secure = {c['secure']} but an instance carries secure = {getattr(inst, 'secure', None)}")
+            if c["name"] is not None and getattr(inst, "name", None) != c["name"]:
+                problems.append(f"{cname}: registered name read from the source is {c['name']!r} but an instance is named {getattr(inst, 'name', None)!r}")
+    except Exception as e:  # noqa
+        problems.append(f"dynamic validation of the native table failed: {type(e).__name__}: {e}")
     return {"classes": classes, "natives": natives, "names": list(arms.keys()), "sites": sites, "modules": modules, "problems": problems}
 
 
